@@ -598,6 +598,9 @@ var stateAlphabet = []sym{
 	{"DE", func(g *sgen, sid uint32) { g.frame(frameBytes(0, 1, sid, []byte("xy"))) }},
 	{"T", func(g *sgen, sid uint32) { g.frame(frameBytes(1, 5, sid, g.enc.block(nil, []kv{{k: "x-t", v: "1"}}))) }},
 	{"Tc", func(g *sgen, sid uint32) { b := g.enc.block(nil, []kv{{k: "x-t", v: "1"}}); g.frame(frameBytes(1, 1, sid, b[:3])); g.frame(frameBytes(9, 4, sid, b[3:])) }},
+	// a trailer section that does not end the stream: complete in its frame (a stream error), going on in CONTINUATION
+	{"Tn", func(g *sgen, sid uint32) { g.frame(frameBytes(1, 4, sid, g.enc.block(nil, []kv{{k: "x-t", v: "1"}}))) }},
+	{"Tnc", func(g *sgen, sid uint32) { b := g.enc.block(nil, []kv{{k: "x-t", v: "1"}}); g.frame(frameBytes(1, 0, sid, b[:3])); g.frame(frameBytes(9, 4, sid, b[3:])) }},
 	{"R", func(g *sgen, sid uint32) { g.rst(sid, 8) }},
 	{"W", func(g *sgen, sid uint32) { g.windowUpdate(sid, 100) }},
 	{"W0", func(g *sgen, sid uint32) { g.windowUpdate(sid, 0) }},
@@ -932,7 +935,19 @@ func (g *sgen) connOffence(kind int) {
 			g.frame(frameBytes(5, 4, 1, []byte{0, 0, 0, 2})) // PUSH_PROMISE from a client
 		}
 	case 19:
-		g.frame(append(frameBytes(0, 0, 1, nil)[:9], 0)[:9]) // placeholder, replaced below
+		// a trailer section without END_STREAM that goes on in CONTINUATION: the server cannot answer on the stream
+		// alone (the block would have to be decoded after the stream is gone: F23's obstacle), it stays a connection error
+		sid := g.sid()
+		g.frame(frameBytes(1, 4, sid, g.enc.block(g.p, []kv{{k: ":method", v: "POST"}, {k: ":scheme", v: "https"}, {k: ":path", v: "/"}, {k: "x-t", v: "open"}})))
+		g.frame(frameBytes(0, 0, sid, []byte("body")))
+		b := g.enc.block(g.p, []kv{{k: "x-trailer", v: "goes on"}})
+		g.frame(frameBytes(1, 0, sid, b[:3]))
+		g.frame(frameBytes(9, 4, sid, b[3:]))
+	case 20:
+		// a trailer section without END_STREAM whose block cannot be decoded: the decoding error comes first
+		sid := g.sid()
+		g.frame(frameBytes(1, 4, sid, g.enc.block(g.p, []kv{{k: ":method", v: "POST"}, {k: ":scheme", v: "https"}, {k: ":path", v: "/"}})))
+		g.frame(frameBytes(1, 4, sid, []byte{0xff, 0xff, 0xff, 0xff, 0xff})) // index past the table
 	}
 }
 
@@ -969,7 +984,7 @@ func genSrvGoAway(p *prng, thorough bool, w *bufio.Writer) {
 				g.rst(sid, 8)
 			}
 		}
-		kind := p.intn(19)
+		kind := p.intn(21)
 		g.line("#connoffence %d", kind)
 		g.gaugeEach = true
 		g.connOffence(kind)
